@@ -169,3 +169,197 @@ func sortedKeys[M ~map[string]V, V any](m M) []string {
 }
 
 var _ = token.NoPos
+
+// goLits returns the function literals that f starts with `go func(){…}()`.
+func goLits(c *core.Check, f *core.Func) []*core.Func {
+	var out []*core.Func
+	core.InspectNoLit(f.Body, func(n ast.Node) bool {
+		if gs, ok := n.(*ast.GoStmt); ok {
+			if lit, ok := core.Unparen(gs.Call.Fun).(*ast.FuncLit); ok {
+				if lf := c.Prog.FuncOf[lit]; lf != nil {
+					out = append(out, lf)
+				}
+			}
+		}
+		return true
+	})
+	return out
+}
+
+// deferLits returns the literals that f defers with `defer func(){…}()`, in source order.
+func deferLits(c *core.Check, f *core.Func) []*core.Func {
+	var out []*core.Func
+	core.InspectNoLit(f.Body, func(n ast.Node) bool {
+		if ds, ok := n.(*ast.DeferStmt); ok {
+			if lit, ok := core.Unparen(ds.Call.Fun).(*ast.FuncLit); ok {
+				if lf := c.Prog.FuncOf[lit]; lf != nil {
+					out = append(out, lf)
+				}
+			}
+		}
+		return true
+	})
+	return out
+}
+
+// pathAvoiding searches a path from `from` (nil = entry) to any goal point
+// that passes none of the avoid points.
+func pathAvoiding(g *core.Graph, from *core.Point, goals, avoid []core.Point) ([]string, bool) {
+	if len(goals) == 0 {
+		return nil, false
+	}
+	tr, ok := g.Search(core.Query{From: from, Goal: core.At(goals...), Avoid: core.At(avoid...)})
+	return g.Trail(tr), ok
+}
+
+// normalExits lists the non-panic exits.
+func normalExits(g *core.Graph) []core.Exit {
+	var out []core.Exit
+	for _, e := range g.Exits() {
+		if e.Kind != "panic" {
+			out = append(out, e)
+		}
+	}
+	return out
+}
+
+// closesOf finds close(x) calls whose argument's access path has the given suffix.
+func closesOf(g *core.Graph, suffix string) []core.Hit {
+	return g.Calls(func(id string, call *ast.CallExpr) bool {
+		return id == "builtin.close" && len(call.Args) == 1 && strings.HasSuffix(core.PathOf(call.Args[0]), suffix)
+	})
+}
+
+// constBool evaluates e as a boolean constant.
+func constBool(info *types.Info, e ast.Expr) (val, ok bool) {
+	tv, has := info.Types[e]
+	if !has || tv.Value == nil {
+		return false, false
+	}
+	s := tv.Value.ExactString()
+	return s == "true", s == "true" || s == "false"
+}
+
+// constInt evaluates e as an integer constant.
+func constInt(info *types.Info, e ast.Expr) (int64, bool) {
+	tv, has := info.Types[e]
+	if !has || tv.Value == nil {
+		return 0, false
+	}
+	var v int64
+	if _, err := fmt.Sscan(tv.Value.ExactString(), &v); err != nil {
+		return 0, false
+	}
+	return v, true
+}
+
+// paramIndex returns the index of the named parameter of f, or -1.
+func paramIndex(f *core.Func, name string) int {
+	i := 0
+	for _, fl := range f.Type.Params.List {
+		if len(fl.Names) == 0 {
+			i++
+			continue
+		}
+		for _, n := range fl.Names {
+			if n.Name == name {
+				return i
+			}
+			i++
+		}
+	}
+	return -1
+}
+
+// usedObj resolves the object an identifier/selector expression denotes (field for selectors).
+func usedObj(info *types.Info, e ast.Expr) types.Object {
+	switch x := core.Unparen(e).(type) {
+	case *ast.Ident:
+		if o := info.Uses[x]; o != nil {
+			return o
+		}
+		return info.Defs[x]
+	case *ast.SelectorExpr:
+		return info.Uses[x.Sel]
+	}
+	return nil
+}
+
+// ifWithCond finds the if statements in f (not in literals) satisfying pred on the condition.
+func ifsWhere(f *core.Func, pred func(*ast.IfStmt) bool) []*ast.IfStmt {
+	var out []*ast.IfStmt
+	core.InspectNoLit(f.Body, func(n ast.Node) bool {
+		if is, ok := n.(*ast.IfStmt); ok && pred(is) {
+			out = append(out, is)
+		}
+		return true
+	})
+	return out
+}
+
+// exprMentions reports whether e contains a call whose callee id satisfies pred, or an identifier resolving to obj.
+func exprCalls(f *core.Func, e ast.Node, ids ...string) bool {
+	found := false
+	ast.Inspect(e, func(n ast.Node) bool {
+		if c, ok := n.(*ast.CallExpr); ok {
+			id := f.CalleeID(c)
+			for _, x := range ids {
+				if id == x {
+					found = true
+				}
+			}
+		}
+		return !found
+	})
+	return found
+}
+
+func exprUses(info *types.Info, e ast.Node, obj types.Object) bool {
+	if obj == nil {
+		return false
+	}
+	found := false
+	ast.Inspect(e, func(n ast.Node) bool {
+		if id, ok := n.(*ast.Ident); ok && info.Uses[id] == obj {
+			found = true
+		}
+		return !found
+	})
+	return found
+}
+
+// thenStart returns a pseudo point from which a Search explores exactly the
+// then-branch (succ 0) or else/done branch (succ 1) of an if statement.
+func branchStart(g *core.Graph, is *ast.IfStmt, then bool) (*core.Point, bool) {
+	cb := g.CondBlock(is)
+	if cb == nil {
+		return nil, false
+	}
+	k := 1
+	if then {
+		k = 0
+	}
+	return &core.Point{B: cb.Succs[k], I: -1}, true
+}
+
+func exprStr(e ast.Expr) string { return types.ExprString(e) }
+
+// recvIdent returns the receiver name of a method declaration.
+func recvIdent(f *core.Func) string {
+	if f.Decl.Recv != nil && len(f.Decl.Recv.List) > 0 && len(f.Decl.Recv.List[0].Names) > 0 {
+		return f.Decl.Recv.List[0].Names[0].Name
+	}
+	return "_"
+}
+
+// paramObj returns the object of the named parameter of a declaration.
+func paramObj(f *core.Func, name string) types.Object {
+	for _, fl := range f.Type.Params.List {
+		for _, n := range fl.Names {
+			if n.Name == name {
+				return f.Info().Defs[n]
+			}
+		}
+	}
+	return nil
+}
